@@ -131,6 +131,28 @@ func allocShapes(x *Ctx) []shape {
 			shape{fmt.Sprintf("long-needle-%d/short-haystack", m), []byte("ab"), nd, 'b', 'B'},
 		)
 	}
+	// long needles (more code points than any fixed scratch array one would write: 65, 130, 3000) through every
+	// strategy: straight to Rabin-Karp (ill-formed first / second code point), handed over from the main loop
+	// (the needle's first two code points recur as false candidates in a periodic haystack), found, absent
+	for _, m := range []int{65, 130, 3000} {
+		body := rep("Ab", m/2)
+		bodyU := rep("Щж", m/2)
+		per := rep("ab", 3*m)
+		for _, v := range []struct {
+			name string
+			s, t []byte
+		}{
+			{"illformed-first/found", append(append(rep("-", 50), "\xff"...), bytes.ToLower(body)...), append([]byte("\x80"), body...)},
+			{"illformed-first/absent", append(append(rep("-", 50), "\xff"...), bytes.ToLower(body[:len(body)-1])...), append([]byte("\x80"), body...)},
+			{"illformed-second/found", append(append(rep("-", 50), "a\xff"...), bytes.ToLower(body)...), append([]byte("A\xfe"), body...)},
+			{"periodic/absent", per, append(append([]byte{}, per[:2*m]...), "c"...)},
+			{"periodic/found-at-end", append(append([]byte{}, per...), "c"...), append(append([]byte{}, bytes.ToUpper(per[:2*m])...), "C"...)},
+			{"unicode/found", append(rep("щж", 2*m), "я"...), append(append([]byte{}, bodyU...), "Я"...)},
+			{"unicode/absent", rep("щж", 2*m), append(append([]byte{}, bodyU...), "Я"...)},
+		} {
+			out = append(out, shape{fmt.Sprintf("long-needle-%d-code-points/%s", m, v.name), v.s, v.t, 'b', 'B'})
+		}
+	}
 	// second arguments (needle / chars / affix) longer than the runtime's 32-byte temporary buffer and not
 	// ASCII, against haystacks more than twice / less than twice as long: every strategy of the Any family and
 	// the affix functions with an argument that a hidden string<->[]byte conversion would have to copy
